@@ -8,7 +8,9 @@ import (
 var (
 	KeyAssetParams = []byte("AssetParams") // asset params key
 
-	DefaultPreviousBlockTime = time.Now()
+	// DefaultPreviousBlockTime is a constant: it ends up in state (default genesis of a module added
+	// by an upgrade, export fallback), so it must not depend on the host clock
+	DefaultPreviousBlockTime = time.Unix(1, 0).UTC()
 )
 
 // ParamKeyTable returns the TypeTable for coinswap module
